@@ -82,8 +82,15 @@ fn sites(lines: &[Line]) -> Vec<Edit> {
         // comments
         if !has_comment {
             // comment texts that look like other syntax: a comment is a comment whatever it says
-            let texts = ["note", "fallback: default value", "see inc/*.inc for the tables", "a ; b // c", "ldi r16, 1", "\"quoted\" 'c'", ".endif .endm .exit", "*/ stray closer", "100% (done) @0"];
-            let t = texts[li % texts.len()];
+            let ruler_dash = "-".repeat(250);
+            let ruler_paren = "(".repeat(250);
+            let texts: Vec<&str> = vec![
+                "note", "fallback: default value", "see inc/*.inc for the tables", "a ; b // c", "ldi r16, 1", "\"quoted\" 'c'", ".endif .endm .exit", "*/ stray closer", "100% (done) @0",
+                // a colon with no blank before it, a tab instead of a blank, a backslash at the very end,
+                // an unpaired quote, rulers
+                "debug:off", "\tdebug:off\t", "see C:\\avr\\include\\", "it's", "say \"", &ruler_dash, &ruler_paren, "~!~!~!-", "\u{e9}t\u{e9}",
+            ];
+            for t in texts.iter().copied() {
             v.push(Edit { group: 0, kind: "trailing-semicolon-comment", line: li, tok: n, op: Op::AppendLine(format!(" ; {}", t)) });
             v.push(Edit { group: 0, kind: "trailing-slash-comment", line: li, tok: n, op: Op::AppendLine(format!(" // {}", t)) });
             // a block comment ends at the first closer: its text must not contain one
@@ -95,6 +102,8 @@ fn sites(lines: &[Line]) -> Vec<Edit> {
                 v.push(Edit { group: 0, kind: "glued-semicolon-comment", line: li, tok: n, op: Op::AppendLine(format!(";{}", t)) });
                 v.push(Edit { group: 0, kind: "glued-slash-comment", line: li, tok: n, op: Op::AppendLine(format!("//{}", t)) });
                 v.push(Edit { group: 0, kind: "glued-block-comment", line: li, tok: n, op: Op::AppendLine(format!("/*{}*/", tb)) });
+                v.push(Edit { group: 0, kind: "tab-separated-comment", line: li, tok: n, op: Op::AppendLine(format!("\t;\t{}", t)) });
+            }
             }
         } else {
             let ci = l.toks.iter().position(|t| t.role == Role::Comment).unwrap();
@@ -111,6 +120,8 @@ fn sites(lines: &[Line]) -> Vec<Edit> {
         }
         let style = ["; inserted comment line", "// inserted comment line with /* an opener", "/* inserted comment line */", "   ; indented comment line", "// see src/*.asm", "; .if 0", "// .macro not_a_macro", "/* .endif */"][li % 8];
         v.push(Edit { group: 2, kind: "comment-only-line", line: li, tok: 0, op: Op::InsertLineBefore(style.into()) });
+        let style2 = ["; /---------\\", "; see C:\\avr\\include\\", "// ends with a backslash \\", ";\\"][li % 4];
+        v.push(Edit { group: 2, kind: "comment-only-line-ending-in-backslash", line: li, tok: 0, op: Op::InsertLineBefore(style2.into()) });
         v.push(Edit { group: 3, kind: "blank-line", line: li, tok: 0, op: Op::InsertLineBefore(if li % 2 == 0 { "".into() } else { " \t ".into() }) });
         // tokens
         for i in 0..n {
